@@ -43,6 +43,13 @@ func c16Case(c *Ctx, name string, domains bool, links [][]string, rules [][]stri
 	}
 	name = fmt.Sprintf("%s/setup=%d", name, variant)
 	e := s.E
+	// the listing APIs are queries: what is listed (rule by rule, field by field) and what is indexed must be the
+	// same after all of them as before
+	stateOf := func() string {
+		m := e.GetModel()
+		return fmt.Sprintf("p=%v g=%v ixp=%d ixg=%d", m["p"]["p"].Policy, m["g"]["g"].Policy, len(m["p"]["p"].PolicyMap), len(m["g"]["g"].PolicyMap))
+	}
+	stateBefore := stateOf()
 	rm := e.GetRoleManager()
 	dlist := [][]string{{}}
 	if domains {
@@ -121,6 +128,7 @@ func c16Case(c *Ctx, name string, domains bool, links [][]string, rules [][]stri
 			}
 		}
 	}
+	c16Getters(c, e, domains, names, doms, what)
 	// users for a permission: exactly the non-role subjects Enforce allows
 	for _, d := range dlist {
 		for _, perm := range perms {
@@ -256,6 +264,26 @@ func c16Case(c *Ctx, name string, domains bool, links [][]string, rules [][]stri
 				}
 			}
 			c.Count("iusersres_bydomain_checks", 1)
+		}
+	}
+	if after := stateOf(); after != stateBefore {
+		c.Direct("a listing API (a query) changed the listed rules", fmt.Sprintf("%s\nbefore: %s\nafter:  %s", what(), stateBefore, after))
+	}
+	// and the decisions asked first are still the decisions now
+	for _, d := range dlist {
+		for _, u := range names {
+			for _, perm := range perms {
+				tail := perm
+				if domains {
+					tail = append(append([]string(nil), d...), perm...)
+				}
+				req := append([]string{u}, tail...)
+				vs := make([]V, len(req))
+				for i, x := range req {
+					vs[i] = VS(x)
+				}
+				s.Do(c, EOp{Kind: "enf", Req: vs})
+			}
 		}
 	}
 	c.Evals++
